@@ -418,7 +418,7 @@ pub fn run(ctx: &Ctx, out: &mut Outcome) {
     // a band of short operands: dense coverage of 1-3 limb patterns
     search::<Case5>(ctx, out, "pairs-short", tier.pick(40_000, 400_000), &|| pair_strategy(3), &move |c, st| check(c, st, tier));
     search::<Case5>(ctx, out, "runs", tier.pick(20_000, 200_000), &runs_strategy, &move |c, st| check(c, st, tier));
-    search::<Case5>(ctx, out, "near-sequences", tier.pick(25_000, 250_000), &|| near_sequence_strategy(3), &move |c, st| check(c, st, tier));
+    search::<Case5>(ctx, out, "near-sequences", tier.pick(100_000, 600_000), &|| near_sequence_strategy(3), &move |c, st| check(c, st, tier));
     search::<Case5>(ctx, out, "new", tier.pick(20_000, 200_000), &new_strategy, &move |c, st| check(c, st, tier));
     if !out.failed() {
         python_stage(ctx, out, ctx.seed ^ 0xC05, tier.pick(1_000, 20_000));
